@@ -2106,13 +2106,13 @@ func (p *printer) overloadFuncDecl(d *ast.OverloadFuncDecl) {
 		p.print(token.PERIOD)
 	}
 	p.expr(d.Name)
-	p.print(blank, token.ASSIGN, blank, token.LPAREN, newline)
+	// the positions of "=", "(" and ")" let comments inside the list stay inside it
+	p.print(blank, d.Assign, token.ASSIGN, blank, d.Lparen, token.LPAREN, indent)
 	for _, fn := range d.Funcs {
-		p.print(indent)
+		p.print(newline)
 		p.expr1(fn, token.LowestPrec, 1)
-		p.print(unindent, newline)
 	}
-	p.print(token.RPAREN)
+	p.print(unindent, newline, d.Rparen, token.RPAREN)
 }
 
 func (p *printer) decl(decl ast.Decl) {
